@@ -52,6 +52,65 @@ def ulps(a, b):
 
 
 # ------------------------------------------------------------------------------------------------ helpers
+# round 5: the same VALUES held in the ways a caller may hold them (the property quantifies over all arrays, not over C-ordered
+# float64 ones).  `relayout(a, label)` is deterministic, so a replay record (values + label) rebuilds the very same input.
+LAYOUTS_2D = ["F", "rev", "readonly", "bcast-rows", "bcast-cols", "F-slice", "C-slice", "swapped", "T-of-C"]
+LAYOUTS_ND = ["swap-last2", "F", "rev-frames", "rev-subaps", "readonly", "bcast-lead", "slice", "swapped"]
+_LAYOUT = ["C"]
+
+
+def relayout(a, label):
+    """the array `a` (or, for the broadcast labels, its first row / column / item repeated) stored as `label` says"""
+    if label == "C":
+        return a
+    if label == "F":
+        return numpy.asfortranarray(a)
+    if label == "rev":                       # negative strides on both axes
+        return numpy.ascontiguousarray(a[::-1, ::-1])[::-1, ::-1]
+    if label == "readonly":
+        b = a.copy()
+        b.setflags(write=False)
+        return b
+    if label == "bcast-rows":                # every row is the first row: stride 0 along the lag axis, all lags are 0
+        return numpy.broadcast_to(a[:1, :].copy(), a.shape)
+    if label == "bcast-cols":                # every column is the first column: stride 0 along axis 1
+        return numpy.broadcast_to(a[:, :1].copy(), a.shape)
+    if label == "F-slice":                   # a window of a larger Fortran-ordered buffer
+        big = numpy.asfortranarray(numpy.zeros((a.shape[0] + 3, 2 * a.shape[1] + 1), dtype=a.dtype))
+        big[2:2 + a.shape[0], 1:1 + 2 * a.shape[1]:2] = a
+        return big[2:2 + a.shape[0], 1:1 + 2 * a.shape[1]:2]
+    if label == "C-slice":                   # every second row / third column of a larger C-ordered buffer
+        big = numpy.zeros((2 * a.shape[0], 3 * a.shape[1]), dtype=a.dtype)
+        big[::2, 1::3] = a
+        return big[::2, 1::3]
+    if label == "swapped":                   # non-native byte order (data read from a big-endian file)
+        return a.astype(a.dtype.newbyteorder(">"))
+    if label == "T-of-C":                    # the transpose of a C-ordered (n1, n0) array
+        return numpy.ascontiguousarray(a.T).T
+    # ---- slope arrays (..., n_frames, n_subaps)
+    if label == "swap-last2":
+        return numpy.moveaxis(numpy.ascontiguousarray(numpy.moveaxis(a, -1, -2)), -1, -2)
+    if label == "rev-frames":
+        return numpy.ascontiguousarray(a[..., ::-1, :])[..., ::-1, :]
+    if label == "rev-subaps":
+        return numpy.ascontiguousarray(a[..., ::-1])[..., ::-1]
+    if label == "bcast-lead":                # every item of the batch is the first item (stride 0 on the leading axes)
+        return numpy.broadcast_to(a[(0,) * (a.ndim - 2)].copy(), a.shape) if a.ndim > 2 else a
+    if label == "slice":
+        big = numpy.zeros(a.shape[:-2] + (2 * a.shape[-2] + 1, a.shape[-1] + 2), dtype=a.dtype)
+        big[..., 1::2, 1:-1] = a
+        return big[..., 1::2, 1:-1]
+    raise ValueError(label)
+
+
+NP_INTS = ["int64", "int32", "int16", "uint8", "uint16", "uint32", "intp"]
+
+
+def as_form(v, form):
+    """a Python number re-typed as the NumPy scalar type `form` names (None / 'py' = unchanged)"""
+    return v if (v is None or form in (None, "py")) else getattr(numpy, form)(v)
+
+
 def xm_expected(n1, nb, step):
     """length documented by the code: int(min(nbOfPoint, shape[1]/step - 1)), nbOfPoint default shape[1]/4"""
     st = 1 if step is None else int(step)
@@ -111,7 +170,7 @@ def check_sf(phase, nb, step, exact):
     if len(sf) != want_len:
         out.append(("sf:length", "result has %d entries, documented size int(min(nbOfPoint, shape[1]/step - 1)) = %d (shape %s "
                     "nbOfPoint=%r step=%r)" % (len(sf), want_len, phase.shape, nb, step)))
-    f32 = phase.dtype == numpy.float32
+    f32 = phase.dtype.kind == "f" and phase.dtype.itemsize == 4
     if len(sf) > 0 and not (sf[0] == 0.0):
         out.append(("sf:lag0-nonzero", "sf[0]=%r (must be 0) for phase shape %s nbOfPoint=%r step=%r"
                     % (float(sf[0]), phase.shape, nb, step)))
@@ -194,6 +253,83 @@ def check_sf_piston(phase, nb, step, piston, exact):
     return []
 
 
+def check_sf_history(phase, nb, step, c):
+    """the caller re-uses ITS array: sf(p), then p is overwritten in place (p *= c, c a power of two: exact), then sf(p) again
+    on the same object at the same address with the same shape — the second answer must be the one of the new contents
+    (c^2 times the first, to 2 ulp), and a third call after restoring the contents must reproduce the first"""
+    p = numpy.array(phase, dtype=float, copy=True)
+    s1 = numpy.array(call_sf(p, nb, step), dtype=float, copy=True)
+    p *= c
+    s2 = numpy.array(call_sf(p, nb, step), dtype=float, copy=True)
+    p /= c
+    s3 = numpy.array(call_sf(p, nb, step), dtype=float, copy=True)
+    if s1.shape != s2.shape or s1.shape != s3.shape:
+        return [("sf:history", "shape of the result changes between calls on the same array object")]
+    for j in range(len(s1)):
+        a, b, d = float(s1[j]), float(s2[j]), float(s3[j])
+        if a != a and b != b and d != d:
+            continue
+        if not (a == a and b == b and d == d and ulps(b, c * c * a) <= 2 and ulps(d, a) <= 2):
+            return [("sf:history", "same array object, contents multiplied in place by %r between two calls: sf[%d] = %r, then %r "
+                     "(expected %r), then %r after restoring (shape %s nbOfPoint=%r step=%r): the result does not follow the "
+                     "array's current contents" % (c, j, a, b, c * c * a, d, phase.shape, nb, step))]
+    return []
+
+
+def make_big_phase(seed, n0, n1, kind, layout):
+    """a LARGE phase (tens of thousands to some 1e5 elements: beyond any small-array path), reproducible from the replay record;
+    integer-valued kinds are exact in every operation of the definition"""
+    g = numpy.random.default_rng(seed)
+    if kind == "float":
+        a = g.standard_normal((n0, n1)) * 3.0
+    else:
+        a = g.integers(-99, 100, size=(n0, n1)).astype(float)
+        if kind == "int+1e8":
+            a = a + 1e8
+        elif kind == "int32":
+            a = a.astype(numpy.int32)
+        elif kind == "float32":
+            a = a.astype(numpy.float32)          # integer-valued; NumPy reduces float32 in single precision: tolerance, not ulps
+    return relayout(a, layout)
+
+
+def check_sf_big(seed, n0, n1, kind, layout, nb, step):
+    """the definition on a large array, reference by exact integer arithmetic (integer-valued kinds: 2 ulp) or by a float64
+    evaluation of the definition on a C-ordered copy (Gaussian: 1e-11; observed <= 2.3e-16 over 12 seeds x 14 shapes; float32
+    integer-valued: 1e-4, observed <= 1.5e-7)"""
+    phase = make_big_phase(seed, n0, n1, kind, layout)
+    before = phase.copy()
+    sf = numpy.asarray(call_sf(phase, nb, step))
+    out = []
+    if not numpy.array_equal(before, phase):
+        out.append(("sf:mutates-input", "calculate_structure_function changed its phase argument (shape %s)" % (phase.shape,)))
+    want_len = xm_expected(n1, nb, step)
+    if sf.ndim != 1 or len(sf) != want_len:
+        return out + [("sf:length", "result has shape %s, documented size %d (shape %s nbOfPoint=%r step=%r)" % (sf.shape, want_len, phase.shape, nb, step))]
+    if len(sf) and not (sf[0] == 0.0):
+        out.append(("sf:lag0-nonzero", "sf[0]=%r (must be 0) for phase shape %s" % (float(sf[0]), phase.shape)))
+    st = 1 if step is None else int(step)
+    exact = kind in ("int", "int+1e8", "int32")
+    ref_src = numpy.ascontiguousarray(before).astype(numpy.int64 if exact else float)
+    for j in range(1, len(sf)):
+        i = j * st
+        if i >= n0:
+            continue
+        d = ref_src[:-i, :] - ref_src[i:, :]
+        got = float(sf[j])
+        if exact:
+            want = float(Fraction(int((d * d).sum()), int(d.size)))
+            ok = got == got and ulps(got, want) <= 2
+        else:
+            want = math.fsum((d * d).ravel().tolist()) / d.size
+            ok = rel_close(got, want, 1e-4 if kind == "float32" else 1e-11)
+        if not ok:
+            out.append(("sf:def:lag>=1:large", "sf[%d]=%r but mean((phase[:-%d]-phase[%d:])**2)=%r (shape %s, %s, %s, nbOfPoint=%r step=%r)"
+                        % (j, got, i, i, want, phase.shape, kind, layout, nb, step)))
+            break
+    return out
+
+
 def check_sf_screens(cfg, seeds):
     """'applied to generated screens it follows the analytic structure function': the estimator averaged over len(seeds) seeded
     ft_sh_phase_screen realisations against structure_function_vk(j*step*delta, r0, L0) at a few lags, within +-25 % (the only
@@ -235,6 +371,10 @@ def dft_bin(x, k):
     return numpy.einsum("t,...ts->...s", w, x.astype(complex))
 
 
+def _is_f32(x):
+    return x.dtype.kind == "f" and x.dtype.itemsize == 4
+
+
 def call_tps(x):
     with numpy.errstate(all="ignore"):
         m, e = _entry("calc_slope_temporalps")(x)
@@ -251,7 +391,7 @@ def check_tps(x, c=2.0, bins=None):
         out.append(("tps:mutates-input", "calc_slope_temporalps changed its argument"))
     x = before                         # every reference below is computed from the pre-call contents
     m_again, _ = call_tps(x.copy())
-    if m_again.shape != m.shape or not numpy.all(numpy.abs(m - m_again) <= (1e-4 if x.dtype == numpy.float32 else 1e-12)
+    if m_again.shape != m.shape or not numpy.all(numpy.abs(m - m_again) <= (1e-4 if _is_f32(x) else 1e-12)
                                                    * float(numpy.abs(m).max() if m.size else 0.0)):
         out.append(("tps:not-repeatable", "two identical calls of calc_slope_temporalps returned different spectra (input shape %s)" % (x.shape,)))
     n, ns = x.shape[-2], x.shape[-1]
@@ -261,7 +401,7 @@ def check_tps(x, c=2.0, bins=None):
     if m.size == 0:
         return out
     # float32 slopes are transformed in single precision by numpy.fft: 1e-4 (observed <= 2.6e-7 over 12 seeds); else 1e-9
-    T9, T12 = (1e-4, 1e-4) if x.dtype == numpy.float32 else (1e-9, 1e-12)
+    T9, T12 = (1e-4, 1e-4) if _is_f32(x) else (1e-9, 1e-12)
     if bins is None:
         ref, _ = naive_tps(x)
         scale = float(numpy.abs(ref).max()) if ref.size else 0.0
@@ -329,20 +469,85 @@ def check_tps_sinusoid(lead, n, ns, k0, amps, phis):
     return []
 
 
-def check_axis(fr, n):
-    ax = numpy.asarray(_entry("get_tps_time_axis")(fr, n))
+def check_tps_history(x, c):
+    """the caller's slope buffer re-used: tps(x); x *= c in place (c a power of two: the transform scales exactly); tps(x) on the
+    same object must be c^2 times the first result; after restoring the contents, the first result again"""
+    p = numpy.array(x, dtype=float, copy=True)
+    m1 = call_tps(p)[0].copy()
+    p *= c
+    m2 = call_tps(p)[0].copy()
+    p /= c
+    m3 = call_tps(p)[0].copy()
+    sc = float(numpy.abs(m1).max()) if m1.size else 0.0
+    if m1.shape != m2.shape or not numpy.all(numpy.abs(m2 - c * c * m1) <= 1e-12 * c * c * sc) or not numpy.all(numpy.abs(m3 - m1) <= 1e-12 * sc):
+        return [("tps:history", "same slope array object, contents multiplied in place by %r between two calls: the second spectrum is "
+                 "not %r times the first (or the third, after restoring, not the first); input shape %s" % (c, c * c, x.shape))]
+    return []
+
+
+def check_plot_tps(x, fr):
+    """plot_tps is a third way into both estimators: what it returns must be what the two functions return for its arguments
+    (3-D slope data: it draws one line per leading item)"""
+    import matplotlib
+    matplotlib.use("Agg", force=True)
+    from matplotlib import pyplot
+    import aotools.turbulence.temporal_ps as TP
+    import contextlib
+    import io
+    before = x.copy()
+    try:
+        with numpy.errstate(all="ignore"), contextlib.redirect_stdout(io.StringIO()), contextlib.redirect_stderr(io.StringIO()):
+            res = TP.plot_tps(x, fr)
+    finally:
+        pyplot.close("all")
+    out = []
+    if not numpy.array_equal(before, x):
+        out.append(("tps:mutates-input", "plot_tps changed its slope_data argument"))
+    n = x.shape[-2]
+    m, e = call_tps(before)
+    if len(res) != 3 or numpy.shape(res[0]) != m.shape or not numpy.all(numpy.abs(numpy.asarray(res[0]) - m) <= 1e-12 * float(numpy.abs(m).max())):
+        out.append(("tps:plot_tps", "plot_tps(x, %r) does not return calc_slope_temporalps(x) as its first value (input shape %s)" % (fr, x.shape)))
+    elif numpy.shape(res[2]) != (n // 2,) or not numpy.all(numpy.abs(numpy.asarray(res[2]) - numpy.arange(n // 2) * float(fr) / n)
+                                                           <= 1e-12 * numpy.arange(n // 2) * float(fr) / n):
+        out.append(("tps:plot_tps", "plot_tps(x, %r) returns a frequency axis %r..., expected k*frame_rate/n_frames with n_frames=%d"
+                    % (fr, numpy.ravel(res[2])[:3].tolist(), n)))
+    return out
+
+
+# round 5: forms in which a caller may hold the two arguments of get_tps_time_axis.  n_frames: Python int or a NumPy integer
+# (e.g. numpy.int32 from a FITS header); frame_rate: Python int / float, NumPy scalars, a 0-d array.
+# Left out (documented, not in the domain): n_frames as numpy.uint64 (numpy.fft.fftfreq raises OverflowError on -(n//2)), float or
+# bool n_frames (fftfreq: "n should be an integer"); float32 / float16 frame rates give the axis to single / half precision
+# (3.5e-9 / 1.2e-4 relative): a precision wart, not checked.
+N_FORMS = ["py", "py", "int64", "int32", "int16", "uint16", "uint32", "intp", "uint8", "int8"]
+FR_FORMS = ["py", "py", "float64", "int64", "int32", "uint16", "uint8", "0d"]
+
+
+def check_axis(fr, n, nform="py", frform="py"):
+    nn = as_form(n, nform)
+    ff = numpy.array(float(fr)) if frform == "0d" else as_form(fr, frform)
+    ax = numpy.asarray(_entry("get_tps_time_axis")(ff, nn))
+    tag = "" if (nform, frform) == ("py", "py") else " [n_frames as %s, frame_rate as %s]" % (nform, frform)
     if ax.shape != (n // 2,):
-        return [("tps:axis", "get_tps_time_axis(%r,%d) has shape %s, expected (%d,)" % (fr, n, ax.shape, n // 2))]
-    for k in range(n // 2):
-        if not rel_close(float(ax[k]), k * float(fr) / n, 1e-12):
-            return [("tps:axis", "get_tps_time_axis(%r,%d)[%d]=%r, expected k*frame_rate/n_frames=%r"
-                     % (fr, n, k, float(ax[k]), k * float(fr) / n))]
+        return [("tps:axis", "get_tps_time_axis(%r,%d)%s has shape %s, expected (%d,)" % (fr, n, tag, ax.shape, n // 2))]
+    want = numpy.array([k * float(fr) / n for k in range(n // 2)]) if n <= 400 else numpy.arange(n // 2) * float(fr) / n
+    bad = numpy.nonzero(~(numpy.abs(ax.astype(float) - want) <= 1e-12 * numpy.abs(want)))[0]
+    if bad.size:
+        k = int(bad[0])
+        return [("tps:axis", "get_tps_time_axis(%r,%d)%s[%d]=%r, expected k*frame_rate/n_frames=%r"
+                 % (fr, n, tag, k, float(ax[k]), float(want[k])))]
     return []
 
 
 # ------------------------------------------------------------------------------------------------ generators
+EXACT_KINDS = ("int", "intdtype", "dyadic", "int+1e8", "int32", "int16", "uint8", "int*2^60", "int*2^-60")
+
+
 def gen_phase(rng, big):
-    kind = rng.choice(["int", "int", "dyadic", "float", "intdtype", "float32", "int+1e8", "float+1e6"])
+    """-> kind, phase, nbOfPoint, step; the layout label of the phase is left in _LAYOUT[0] (replay: relayout(values, label)),
+    nbOfPoint / step may be NumPy integer scalars (replay: their type names in _FORMS)"""
+    kind = rng.choice(["int", "int", "dyadic", "float", "intdtype", "float32", "int+1e8", "float+1e6",
+                       "int32", "int16", "uint8", "int*2^60", "int*2^-60"])
     hi = 40 if big else 14
     n0, n1 = rng.randint(1, hi), rng.randint(1, hi)
     if rng.random() < 0.3:
@@ -351,29 +556,58 @@ def gen_phase(rng, big):
         a = numpy.array([[float(rng.randint(-9, 9)) for _ in range(n1)] for _ in range(n0)]).reshape(n0, n1)
     elif kind == "intdtype":
         a = numpy.array([[rng.randint(-9, 9) for _ in range(n1)] for _ in range(n0)], dtype=numpy.int64).reshape(n0, n1)
+    elif kind in ("int32", "int16"):
+        hi = 9 if rng.random() < 0.5 else (30000 if kind == "int16" else 10 ** 6)          # beyond ±181 / ±46340: squares leave the dtype
+        a = numpy.array([[rng.randint(-hi, hi) for _ in range(n1)] for _ in range(n0)], dtype=kind).reshape(n0, n1)
+    elif kind == "uint8":
+        # full-range narrow integers (finding sf:integer-dtype-overflow, fixed by b32d7a3: the squared differences overflowed in the
+        # dtype of the phase array); exact: every difference is an integer below 2^8, every square below 2^16
+        a = numpy.array([[rng.randint(0, 255) for _ in range(n1)] for _ in range(n0)], dtype=numpy.uint8).reshape(n0, n1)
     elif kind == "dyadic":
         a = numpy.array([[common.dyadic(rng, -8, 8) for _ in range(n1)] for _ in range(n0)]).reshape(n0, n1)
     elif kind == "int+1e8":       # a large piston under integer structure: every operation of the definition stays exact
         a = numpy.array([[float(rng.randint(-9, 9)) for _ in range(n1)] for _ in range(n0)]).reshape(n0, n1) + 1e8
+    elif kind in ("int*2^60", "int*2^-60"):       # huge / tiny phase units (an absolute floor or offset shows only here); exact
+        a = numpy.array([[float(rng.randint(-9, 9)) for _ in range(n1)] for _ in range(n0)]).reshape(n0, n1) * 2.0 ** (60 if kind == "int*2^60" else -60)
     elif kind == "float32":
         a = numpy.array([[rng.gauss(0, 3) for _ in range(n1)] for _ in range(n0)], dtype=numpy.float32).reshape(n0, n1)
     elif kind == "float+1e6":     # Gaussian structure on a large mean (unwrapped phase far from zero)
         a = numpy.array([[rng.gauss(0, 3) for _ in range(n1)] for _ in range(n0)]).reshape(n0, n1) + 1e6
     else:
         a = numpy.array([[rng.gauss(0, 3) for _ in range(n1)] for _ in range(n0)]).reshape(n0, n1)
-    if rng.random() < 0.2:                 # the same values as a non-contiguous view (transposed / reversed storage)
-        a = numpy.asfortranarray(a) if rng.random() < 0.5 else numpy.ascontiguousarray(a[::-1, ::-1])[::-1, ::-1]
+    _LAYOUT[0] = "C"
+    if rng.random() < 0.35:                # the same values in another memory layout / as a view / read-only / byte-swapped
+        _LAYOUT[0] = rng.choice(LAYOUTS_2D)
+        a = relayout(a, _LAYOUT[0])
     nb = None if rng.random() < 0.4 else rng.randint(0, n1 + 2)
+    _FORMS[0] = _FORMS[1] = "py"
     if nb is not None and rng.random() < 0.15:
         nb = nb + rng.choice([0.0, 0.25, 0.5])          # a float nbOfPoint (the default, shape[1]/4, is one)
+    elif nb is not None and rng.random() < 0.15:
+        _FORMS[0] = rng.choice(NP_INTS)                 # a NumPy integer scalar (e.g. taken from a shape computation or a header)
+        nb = as_form(nb, _FORMS[0])
     r = rng.random()
     step = None if r < 0.35 else (float(rng.randint(1, 3)) if r < 0.45 else rng.randint(1, max(1, min(5, n1))))
+    if r >= 0.45 and rng.random() < 0.1:
+        step = rng.randint(1, n1 + 1)                   # steps up to and beyond the array width (few or no lags left)
+    if r >= 0.45 and rng.random() < 0.15:
+        _FORMS[1] = rng.choice(NP_INTS)
+        step = as_form(step, _FORMS[1])
     return kind, a, nb, step
 
 
+_FORMS = ["py", "py"]
+
+
+def py_num(v):
+    """a NumPy scalar as the Python number of the same value (for replay records)"""
+    return v.item() if isinstance(v, numpy.generic) else v
+
+
 def gen_slopes(rng, big, n=None):
-    kind = rng.choice(["int", "float", "intdtype", "float32"])
-    lead = rng.choice([(), (), (rng.randint(1, 3),), (rng.randint(1, 2), rng.randint(1, 3))])
+    """-> kind, slopes; the layout label is left in _LAYOUT[0]"""
+    kind = rng.choice(["int", "float", "intdtype", "float32", "int32", "uint8", "int*2^40", "int*2^-40"])
+    lead = rng.choice([(), (), (rng.randint(1, 3),), (rng.randint(1, 2), rng.randint(1, 3)), (rng.choice([3, 5, 7]),)])
     if n is None:
         n = rng.randint(1, 48 if big else 20)
     elif n > 200:
@@ -383,14 +617,20 @@ def gen_slopes(rng, big, n=None):
     size = int(numpy.prod(shape))
     if kind == "int":
         x = numpy.array([float(rng.randint(-9, 9)) for _ in range(size)]).reshape(shape)
-    elif kind == "intdtype":
-        x = numpy.array([rng.randint(-9, 9) for _ in range(size)], dtype=numpy.int64).reshape(shape)
+    elif kind in ("intdtype", "int32"):
+        x = numpy.array([rng.randint(-9, 9) for _ in range(size)], dtype=numpy.int64 if kind == "intdtype" else numpy.int32).reshape(shape)
+    elif kind == "uint8":             # raw detector counts
+        x = numpy.array([rng.randint(0, 255) for _ in range(size)], dtype=numpy.uint8).reshape(shape)
+    elif kind in ("int*2^40", "int*2^-40"):      # slopes in huge / tiny units (nanoradians vs. counts): scaling by 2^k is exact
+        x = numpy.array([float(rng.randint(-9, 9)) for _ in range(size)]).reshape(shape) * 2.0 ** (40 if kind == "int*2^40" else -40)
     elif kind == "float32":
         x = numpy.array([rng.gauss(0, 2) for _ in range(size)], dtype=numpy.float32).reshape(shape)
     else:
         x = numpy.array([rng.gauss(0, 2) for _ in range(size)]).reshape(shape)
-    if rng.random() < 0.2:                 # non-contiguous view of the same values
-        x = numpy.moveaxis(numpy.ascontiguousarray(numpy.moveaxis(x, -1, -2)), -1, -2)
+    _LAYOUT[0] = "C"
+    if rng.random() < 0.35:                # non-contiguous / Fortran-ordered / reversed / read-only / broadcast / byte-swapped
+        _LAYOUT[0] = rng.choice(LAYOUTS_ND)
+        x = relayout(x, _LAYOUT[0])
     return kind, x
 
 
@@ -539,7 +779,7 @@ def correspondence(chk, n_sf, n_tps, n_axis, xm_hi, nmax=16):
             chk.broke("correspondence", "driver answered %r to %s" % (a[:80], line[:120]), line)
             continue
         if op in ("sf", "sfu"):
-            exact = kind in ("int", "intdtype", "dyadic", "int+1e8")
+            exact = kind in EXACT_KINDS
             ok = len(vals) == len(impl) and all(
                 (common.f2h(v) == common.f2h(w) or (v != v and w != w) or (v == 0 and w == 0)) if exact
                 else common.close(v, w, 1e-5 if kind == "float32" else 1e-12)
@@ -587,8 +827,14 @@ def oracle(chk, n_sf, n_tps, big):
             chk.count("sf:float-nbOfPoint")
         chk.count("sf:rows<cols" if a.shape[0] < a.shape[1] else "sf:rows>=cols")
         chk.count("sf:xm=%s" % min(xm_expected(a.shape[1], nb, step), 5))
-        rp = {"fn": "sf", "phase": a.tolist(), "dtype": str(a.dtype), "nb": nb, "step": step, "exact": exact}
-        chk.case(("sf", it, a.shape, nb, step, kind), sample={"shape": a.shape, "nb": nb, "step": step, "kind": kind} if it < 2 else None)
+        rp = {"fn": "sf", "phase": a.tolist(), "dtype": str(a.dtype), "nb": py_num(nb), "step": py_num(step), "exact": exact,
+              "layout": _LAYOUT[0], "forms": list(_FORMS)}
+        if _LAYOUT[0] != "C":
+            chk.count("sf:layout:%s" % _LAYOUT[0])
+        if _FORMS != ["py", "py"]:
+            chk.count("sf:numpy-integer-nbOfPoint/step")
+        chk.case(("sf", it, a.shape, py_num(nb), py_num(step), kind, _LAYOUT[0]),
+                 sample={"shape": a.shape, "nb": py_num(nb), "step": py_num(step), "kind": kind} if it < 2 else None)
         report(check_sf, (a, nb, step, exact), rp)
         # (on a large offset c*phase is exact only for powers of two; the rounding of 1.5*phase would otherwise be compared)
         c = rng.choice([2.0, -0.5, 4.0] if "+1e" in kind else [2.0, -0.5, 1.5, 3.0])
@@ -597,12 +843,38 @@ def oracle(chk, n_sf, n_tps, big):
         off = [common.dyadic(rng, -4, 4, 3) for _ in range(a.shape[1])]
         piston = (0.0, 0.0, 1e8, float(rng.randint(-10 ** 9, 10 ** 9)))[it % 4]
         report(check_sf_ramp, (a.shape[0], a.shape[1], a_s, off, nb, step, piston),
-               {"fn": "sf_ramp", "n0": a.shape[0], "n1": a.shape[1], "a": a_s, "offsets": off, "nb": nb, "step": step, "piston": piston})
-        if kind in ("int", "intdtype", "float"):
+               {"fn": "sf_ramp", "n0": a.shape[0], "n1": a.shape[1], "a": a_s, "offsets": off, "nb": py_num(nb), "step": py_num(step),
+                "piston": piston, "forms": list(_FORMS)})
+        if kind in ("int", "intdtype", "float", "int32", "int16", "uint8"):
             pist = 1e8 if kind != "float" else 1e6
             report(check_sf_piston, (a.astype(float), nb, step, pist, kind != "float"),
                    dict(rp, fn="sf_piston", piston=pist, exact=kind != "float"))
             chk.count("sf:piston-invariance")
+        if it % 4 == 1 and exact:
+            # the caller's array re-used after being overwritten in place (same object, same address, same shape)
+            ch = rng.choice([2.0, 0.5, -4.0])
+            report(check_sf_history, (a, nb, step, ch), dict(rp, fn="sf_history", c=ch))
+            chk.count("sf:history:in-place-reuse")
+    # LARGE phases (round 5): 2e4 .. 3e5 elements, beyond any small-array path (NumPy's pairwise summation blocks, a size-gated
+    # second algorithm), in all layouts; few lags so that the cost stays small
+    BIG_FIRST = [(257, 257), (300, 70), (70, 300), (520, 520), (4000, 9), (3, 30000)]
+    n_big = 8 if not big else 60
+    for it in range(n_big):
+        chk.oracle_cases += 1
+        if it < len(BIG_FIRST):
+            n0, n1 = BIG_FIRST[it]
+        else:
+            n0, n1 = rng.choice([(rng.randint(130, 600), rng.randint(130, 600)), (rng.randint(1000, 20000), rng.randint(3, 12)),
+                                 (rng.randint(2, 12), rng.randint(1000, 20000)), (256, 256), (512, 513)])
+        kindb = rng.choice(["int", "int", "int+1e8", "float", "int32", "float32"])
+        layout = rng.choice(["C", "C"] + LAYOUTS_2D)
+        stepb = rng.choice([None, 1, 2, 3, rng.randint(1, max(1, n1 // 8))])
+        nbb = rng.randint(2, 6)
+        seed = rng.getrandbits(32)
+        chk.count("sf:large:%s" % ("<2^16" if n0 * n1 < 2 ** 16 else "<2^18" if n0 * n1 < 2 ** 18 else ">=2^18"))
+        chk.case(("sf-big", it, n0, n1, kindb, layout, nbb, stepb, seed), sample={"shape": (n0, n1), "kind": kindb, "layout": layout} if it == 0 else None)
+        report(check_sf_big, (seed, n0, n1, kindb, layout, nbb, stepb),
+               {"fn": "sf_big", "seed": seed, "n0": n0, "n1": n1, "kind": kindb, "layout": layout, "nb": nbb, "step": stepb})
     # generated screens against the analytic von Karman structure function (one cheap sample per run)
     cfg = rng.choice([(64, 0.1, 0.15, 20.0, 1, 13, (2, 4, 8)), (64, 0.05, 0.1, 10.0, 1, 13, (2, 4, 8)),
                       (64, 0.1, 0.15, 5.0, 2, 7, (1, 2, 4)), (48, 0.1, 0.2, 30.0, 1, 10, (2, 4, 8))])
@@ -630,7 +902,14 @@ def oracle(chk, n_sf, n_tps, big):
         chk.count("tps:n_frames-%s" % ("even" if x.shape[-2] % 2 == 0 else "odd"))
         c = rng.choice([2.0, -3.0, 0.5, 1.25])
         chk.case(("tps", it, x.shape, kind), sample={"shape": x.shape, "kind": kind} if it < 2 else None)
-        report(check_tps, (x, c), {"fn": "tps", "x": x.tolist(), "c": c, "dtype": str(x.dtype)})
+        if _LAYOUT[0] != "C":
+            chk.count("tps:layout:%s" % _LAYOUT[0])
+        rpt = {"fn": "tps", "x": x.tolist(), "c": c, "dtype": str(x.dtype), "layout": _LAYOUT[0]}
+        report(check_tps, (x, c), rpt)
+        if it % 4 == 2 and kind in ("int", "intdtype", "int32", "uint8", "int*2^40", "int*2^-40"):
+            ch = rng.choice([2.0, 0.5, -4.0])
+            report(check_tps_history, (x, ch), dict(rpt, fn="tps_history", c=ch))
+            chk.count("tps:history:in-place-reuse")
         n = rng.randint(4, 64 if big else 24)
         if it < len(ROUGH_N):
             n = ROUGH_N[it]
@@ -640,27 +919,68 @@ def oracle(chk, n_sf, n_tps, big):
         ns = rng.randint(1, 4)
         amps = [rng.uniform(0.5, 3) for _ in range(ns)]
         phis = [rng.uniform(0, 2 * math.pi) for _ in range(ns)]
-        lead = rng.choice([(), (2,), (1, 2)])
+        lead = rng.choice([(), (2,), (1, 2), (3,)])
         report(check_tps_sinusoid, (lead, n, ns, k0, amps, phis),
                {"fn": "tps_sinusoid", "lead": list(lead), "n": n, "ns": ns, "k0": k0, "amps": amps, "phis": phis})
-        fr = rng.choice([float(rng.randint(1, 2000)), math.exp(rng.uniform(-3, 9)), rng.randint(1, 1000)])
+        fr = rng.choice([float(rng.randint(1, 2000)), math.exp(rng.uniform(-3, 9)), rng.randint(1, 1000), 10 ** rng.uniform(-6, 9)])
         nfr = rng.randint(1, 200)
-        report(check_axis, (fr, nfr), {"fn": "axis", "frame_rate": fr, "n_frames": nfr})
+        # LARGE frame counts (vectorised comparison), just below / at / above powers of two, and odd ones
+        if it % 8 == 3:
+            nfr = rng.choice([1000, 1001, 4096, 4097, 65535, 65536, 65537, rng.randint(201, 70000) | 1, rng.randint(201, 70000)]
+                             + ([2 ** 20, 2 ** 20 + 1] if big else []))
+            chk.count("axis:n_frames>200")
+        nform = rng.choice(N_FORMS)
+        if nform != "py" and not (nfr <= numpy.iinfo(getattr(numpy, nform)).max):
+            nform = "int64"
+        frform = rng.choice(FR_FORMS)
+        if frform not in ("py", "float64", "0d") and not (float(fr) == int(fr) and 1 <= fr <= numpy.iinfo(getattr(numpy, frform)).max):
+            frform = "float64"
+        if (nform, frform) != ("py", "py"):
+            chk.count("axis:numpy-scalar-arguments")
+        report(check_axis, (fr, nfr, nform, frform), {"fn": "axis", "frame_rate": fr, "n_frames": nfr, "nform": nform, "frform": frform})
+    # plot_tps: the third entry point into both estimators (round 5; one call per run, 3-D slope data)
+    chk.oracle_cases += 1
+    xs = make_slopes(rng.getrandbits(32), (rng.choice([1, 2, 3]),), rng.choice([12, 13, 21, 30]), rng.randint(1, 5), "random", "float")
+    frp = float(rng.randint(50, 2000))
+    chk.case(("plot_tps", xs.shape, frp))
+    chk.count("tps:via-plot_tps")
+    report(check_plot_tps, (xs, frp), {"fn": "plot_tps", "x": xs.tolist(), "frame_rate": frp})
 
     # MANY sub-apertures (a 40x40 Shack-Hartmann has 2480 slopes) with unequal signal levels, and LONG records (thousands of
     # frames, odd counts): the definition counts every sub-aperture once and every frame once however many there are
     n_wide, n_long = (10, 6) if not big else (150, 60)
     WIDE_FIRST = [300, 632, 2480]
     LONG_FIRST = [4096, 4095, 2049]
-    for it in range(n_wide + n_long):
+    # round 5: records longer than 2^13 / 2^14 / 2^16 frames (prime, power of two, power of two + 1) and MANY batch items
+    VLONG = [8192, 10007, 16385] + ([65536, 65537, 100003, 131071] if big else [])
+    BIGLEAD = [(300,), (17, 19), (3, 5, 7), (1025,)]
+    n_extra = 4 if not big else 24
+    for it in range(n_wide + n_long + n_extra):
         chk.oracle_cases += 1
         wide = it < n_wide
-        if wide:
+        extra = it >= n_wide + n_long
+        layout = "C"
+        if extra:
+            j = it - n_wide - n_long
+            if j % 2 == 0:
+                n = VLONG[(j // 2) % len(VLONG)] if j // 2 < len(VLONG) else rng.randint(4097, 70000)
+                ns, lead = rng.randint(1, 4), ()
+                bins = [0, 1, n // 2 - 1] + [rng.randrange(n // 2) for _ in range(5)]
+                chk.count("tps:very-long-record")
+            else:
+                lead = BIGLEAD[(j // 2) % len(BIGLEAD)]
+                n, ns = rng.choice([7, 8, 13, 16, 26]), rng.randint(1, 5)
+                bins = None
+                chk.count("tps:many-batch-items")
+            layout = rng.choice(["C"] + LAYOUTS_ND)
+        elif wide:
             ns = WIDE_FIRST[it] if it < len(WIDE_FIRST) else rng.choice([256, 257, 511, 513, 1024, 3000, rng.randint(257, 3000),
                                                                          rng.randint(257, 3000), rng.randint(257, 700)])
             n = rng.randint(2, 48) if it % 4 else rng.choice(ROUGH_N[:6])
             lead = rng.choice([(), (), (2,)])
             bins = None
+            if it >= len(WIDE_FIRST):
+                layout = rng.choice(["C", "C"] + LAYOUTS_ND)
         else:
             j = it - n_wide
             n = LONG_FIRST[j] if j < len(LONG_FIRST) else rng.randint(200, 4096)
@@ -669,16 +989,21 @@ def oracle(chk, n_sf, n_tps, big):
             ns = 300 if j == 3 else rng.randint(1, 6)
             lead = () if j % 3 else (2,)
             bins = [0, 1, n // 2 - 1] + [rng.randrange(n // 2) for _ in range(8)]
+            if j >= len(LONG_FIRST):
+                layout = rng.choice(["C", "C"] + LAYOUTS_ND)
         akind, kind = rng.choice(AMP_KINDS), rng.choice(["float", "float", "int"])
         seed = rng.getrandbits(32)
         c = rng.choice([2.0, -3.0, 0.5, 1.25])
-        x = make_slopes(seed, lead, n, ns, akind, kind)
-        chk.count("tps:many-subaps" if wide else "tps:long-record")
+        x = relayout(make_slopes(seed, lead, n, ns, akind, kind), layout)
+        if not extra:
+            chk.count("tps:many-subaps" if wide else "tps:long-record")
+        if layout != "C":
+            chk.count("tps:layout:%s" % layout)
         chk.count("tps:levels=%s" % akind)
         chk.count("tps:n_frames-%s" % ("even" if n % 2 == 0 else "odd"))
-        chk.case(("tps-gen", it, x.shape, akind, kind, seed), sample={"shape": x.shape, "levels": akind, "kind": kind} if it in (0, n_wide) else None)
+        chk.case(("tps-gen", it, x.shape, akind, kind, seed, layout), sample={"shape": x.shape, "levels": akind, "kind": kind} if it in (0, n_wide) else None)
         report(check_tps, (x, c, bins), {"fn": "tps_gen", "seed": seed, "lead": list(lead), "n": n, "ns": ns, "levels": akind,
-                                         "kind": kind, "c": c, "bins": bins})
+                                         "kind": kind, "c": c, "bins": bins, "layout": layout})
         # the sinusoid clause on the same sizes: P[k0] = n^2/4 * mean over ALL sub-apertures of A_s^2
         g = numpy.random.default_rng(seed ^ 0x5A5A)
         amps = sub_amps(g, ns, akind).tolist()
@@ -709,24 +1034,35 @@ def replay(rec):
 
 
 def _replay_eval(fn, r):
+    forms = r.get("forms", ["py", "py"])
+    nb, step = (as_form(r.get("nb"), forms[0]), as_form(r.get("step"), forms[1])) if fn.startswith("sf") and fn != "sf_screens" else (None, None)
     if fn == "sf":
-        fails = check_sf(numpy.array(r["phase"], dtype=r.get("dtype", "float64")), r["nb"], r["step"], r["exact"])
+        fails = check_sf(relayout(numpy.array(r["phase"], dtype=r.get("dtype", "float64")), r.get("layout", "C")), nb, step, r["exact"])
     elif fn == "sf_quadratic":
-        fails = check_sf_quadratic(numpy.array(r["phase"], dtype=float), r["nb"], r["step"], r["c"])
+        fails = check_sf_quadratic(numpy.array(r["phase"], dtype=float), nb, step, r["c"])
     elif fn == "sf_ramp":
-        fails = check_sf_ramp(r["n0"], r["n1"], r["a"], r["offsets"], r["nb"], r["step"], r.get("piston", 0.0))
+        fails = check_sf_ramp(r["n0"], r["n1"], r["a"], r["offsets"], nb, step, r.get("piston", 0.0))
     elif fn == "sf_piston":
-        fails = check_sf_piston(numpy.array(r["phase"], dtype=float), r["nb"], r["step"], r["piston"], r["exact"])
+        fails = check_sf_piston(numpy.array(r["phase"], dtype=float), nb, step, r["piston"], r["exact"])
+    elif fn == "sf_history":
+        fails = check_sf_history(numpy.array(r["phase"], dtype=float), nb, step, r["c"])
+    elif fn == "sf_big":
+        fails = check_sf_big(r["seed"], r["n0"], r["n1"], r["kind"], r["layout"], r["nb"], r["step"])
     elif fn == "sf_screens":
         fails = check_sf_screens(tuple(r["cfg"][:6]) + (tuple(r["cfg"][6]),), r["seeds"])[0]
     elif fn == "tps":
-        fails = check_tps(numpy.array(r["x"], dtype=r.get("dtype", "float64")), r["c"])
+        fails = check_tps(relayout(numpy.array(r["x"], dtype=r.get("dtype", "float64")), r.get("layout", "C")), r["c"])
+    elif fn == "tps_history":
+        fails = check_tps_history(numpy.array(r["x"], dtype=float), r["c"])
+    elif fn == "plot_tps":
+        fails = check_plot_tps(numpy.array(r["x"], dtype=float), r["frame_rate"])
     elif fn == "tps_gen":
-        fails = check_tps(make_slopes(r["seed"], tuple(r["lead"]), r["n"], r["ns"], r["levels"], r["kind"]), r["c"], r.get("bins"))
+        fails = check_tps(relayout(make_slopes(r["seed"], tuple(r["lead"]), r["n"], r["ns"], r["levels"], r["kind"]), r.get("layout", "C")),
+                          r["c"], r.get("bins"))
     elif fn == "tps_sinusoid":
         fails = check_tps_sinusoid(tuple(r["lead"]), r["n"], r["ns"], r["k0"], r["amps"], r["phis"])
     elif fn == "axis":
-        fails = check_axis(r["frame_rate"], r["n_frames"])
+        fails = check_axis(r["frame_rate"], r["n_frames"], r.get("nform", "py"), r.get("frform", "py"))
     else:
         fails = []
     return fails
